@@ -322,9 +322,33 @@ def code_entries(v):
 
 # ---------------------------------------------------------------- run
 
+GEN_FINITE = {"ADMM": "C15_FinAdmm", "LADMM": "C15_FinLadmm", "PADMM": "C15_FinPadmm", "NLPADMM": "C15_FinNlpadmm",
+              "PDHG": "C15_FinPdhg", "PGM": "C15_FinPgm", "APGM": "C15_FinApgm"}
+
+
+def inspected_vars_obligation(ctx):
+    """The working variables exercised by stream (c) (WORKING_VARS) must be exactly the attributes
+    that the _working_vars_finite method of each class reads, as regenerated from the source by
+    tools/py2coq.py (comment `attributes read by finite_gen: ...` of coq/gen/C15_Fin*.v; the
+    theorems C15_gen_finite_* state that the generated test is vars_finite of that list)."""
+    import re
+    from vf.common import GEN
+    diffs = []
+    for kind, mod in GEN_FINITE.items():
+        f = GEN / (mod + ".v")
+        m = re.search(r"attributes read by finite_gen: ([^*]*)\*\)", f.read_text()) if f.exists() else None
+        code = m.group(1).split() if m else None
+        mine = [n[:-3] if n.endswith("[0]") else n for n in WORKING_VARS[kind]]
+        if code != mine:
+            diffs.append(f"{kind}: code inspects {code}, harness exercises {mine}")
+    ctx.obligation(not diffs, "the variables _working_vars_finite inspects are the ones the harness exercises",
+                   "; ".join(diffs))
+
+
 def run(ctx: Ctx):
     if not getattr(ctx, "no_proofs", False):
         ctx.proofs()
+    inspected_vars_obligation(ctx)
     ctx.trusted += ["Python object model of Optimizer subclasses / Timer dictionaries as transcribed in Opt/Timer.v, Opt/Driver.v",
                     "fake clock (scico.util.timer patched) with dyadic readings, exact in float64"]
 
